@@ -9,6 +9,7 @@ import checks.c01 as c01
 import checks.c03 as c03
 import checks.c04 as c04
 import checks.c06 as c06
+import checks.c07 as c07
 import checks.c10 as c10
 from sim.apps import find_queue_deadlock
 from sim.run import run_sim
@@ -210,8 +211,46 @@ def src_slow(case: Dict[str, Any]) -> Tuple[dict, dict, Any]:
     return cfg, programs, sc
 
 
+def src_c07(case: Dict[str, Any]) -> Tuple[dict, dict, Any, Any]:
+    """C07's histories (pauses, timers, rejected requests, shutdown inside requests). The timer
+    model that C07 evaluates while a history runs is not the judge here: if it objects, the
+    objection becomes part of the observation, and only a difference between the workers counts."""
+    cfg = {"keep_alive_timeout": case["T"], "server_names": []}
+    if any(s_.get("what") == "server_name" for s_ in case.get("steps", [])) \
+            or case.get("opening") == "h2c_unknown_host":
+        cfg["server_names"] = ["example.com", "x"]
+    holder: Dict[str, Any] = {}
+
+    def factory(env: Any, obs: Any) -> Any:
+        from sim.apps import ScriptedApp
+
+        obs.app = ScriptedApp({}, env)
+        holder["app"] = obs.app
+        return obs.app.wrapper()
+
+    async def sc(env: Any) -> Any:
+        inner = dict(case)
+        inner.pop("_poisoned", None)
+        note = None
+        try:
+            if inner["proto"] == "h1":
+                await c07.run_h1(env, inner, holder["app"])
+            elif inner["proto"] == "h2":
+                await c07.run_h2(env, inner, holder["app"])
+            else:
+                await c07.run_ws(env, inner, holder["app"])
+        except Violation as v:
+            note = v.kind
+            await env.settle(5000 * inner["T"] + 50)
+        conn = env.conns[0]
+        conn.model_note = note
+        return conn
+
+    return cfg, {}, sc, factory
+
+
 SOURCES = {"c06": src_c06, "c01": src_c01, "c10": src_c10, "c03": src_c03, "c04": src_c04,
-           "slow": src_slow}
+           "slow": src_slow, "c07": src_c07}
 
 
 @st.composite
@@ -241,6 +280,12 @@ def case_strategy(draw: Any, source: str) -> Dict[str, Any]:
         inner["race"] = None
         if inner["when"] == inner["apps"][0]["delay"] and inner["when"] > 0:
             inner["when"] = inner["when"] + 0.05
+    elif source == "c07":
+        inner = draw(st.one_of(c07.h1_history(), c07.h2_history(), c07.ws_history()))
+        # a peer loss through a failing write depends on the transport's buffering
+        for st_ in inner.get("steps", []):
+            if st_.get("how") == "write_fail":
+                st_["how"] = "reset"
     elif source == "slow":
         inner = {"queue": draw(st.sampled_from([1, 2, 3, 10])),
                  "frames": draw(st.integers(1, 30)), "size": draw(st.sampled_from([1, 10, 500])),
@@ -275,16 +320,19 @@ def diff(a: Any, b: Any, path: str = "") -> Optional[str]:
 
 def run_case(case: Dict[str, Any]) -> CaseInfo:
     inner = case["inner"]
-    cfg, programs, sc = SOURCES[case["source"]](inner)
+    src = SOURCES[case["source"]](inner)
+    cfg, programs, sc = src[:3]
+    factory = src[3] if len(src) > 3 else None
     views = {}
     for be in ("asyncio", "trio"):
-        obs = run_sim(be, cfg, programs, sc, sched=inner.get("sched", 0))
+        obs = run_sim(be, cfg, programs, sc, sched=inner.get("sched", 0), app_factory=factory)
         if obs.spin:
             raise Violation("spin", obs.spin, backend=be)
         conn = obs.value
         if find_queue_deadlock(obs):
             raise Violation("app_queue_deadlock", find_queue_deadlock(obs), backend=be)
         views[be] = observe(obs, conn)
+        views[be]["model_note"] = getattr(conn, "model_note", None)
         if case["source"] == "c01" and not isinstance(views[be]["closed_at"], str):
             # the C01 client is reactive (it waits for flow-control credit and the application
             # sleeps per received chunk, whose boundaries follow the transports' read sizes), so
@@ -316,7 +364,7 @@ def run_case(case: Dict[str, Any]) -> CaseInfo:
 def parts() -> List[Part]:
     ps = []
     for src, q in (("c06", 900), ("c01", 700), ("c10", 500), ("c03", 900), ("c04", 900),
-                   ("slow", 300)):
+                   ("slow", 300), ("c07", 900)):
         ps.append(Part(src, run_case, strategy=(lambda s=src: case_strategy(s)), quick=q,
                        thorough=q * 40, rule=f"sessions generated by {src.upper()}'s generators"))
     return ps
